@@ -53,6 +53,17 @@ def expected_span(tokens, s, e):
     return [span[0][2], span[0][3], real[-1][4], real[-1][5]]
 
 
+def _collect_mk(v, out):
+    if isinstance(v, dict):
+        if "o" in v and v["o"] and v["o"][0] == "mk" and len(v["o"]) == 5 and all(isinstance(n, int) for n in v["o"][1:]):
+            out.append(v["o"][1:])
+        for w in v.values():
+            _collect_mk(w, out)
+    elif isinstance(v, list):
+        for w in v:
+            _collect_mk(w, out)
+
+
 def run(chk: common.Check, tier: str):
     chk.rule = ("grammars whose actions use LOCATIONS at rule level, inside groups, in loops, after lookaheads that fetch "
                 "further tokens, in left-recursive rules, plus random grammars with mk(LOCATIONS) actions x token sequences "
@@ -79,6 +90,39 @@ def run(chk: common.Check, tier: str):
                    not [t for t in without if t in SEEDS], json.dumps([t for t in without if t in SEEDS][:3]))
     pairs = rm.krun(chk, "C15", texts, lambda t: A.inputs_upto(A.alphabet(t), 3, nin) + (EXTRA if t in SEEDS else []),
                     configs=("q1", "q0", "v1", "v0"), extra_preds=(("kloc", "rcase_loc", inst), ("khasloc", "rcase_has_loc", has_loc)))
+    # every location an action received -- at rule level, in groups, in repeated groups, at any depth of the result -- must be
+    # the span of the tokens of SOME successful invocation of that parse (the method whose alternative ran the action)
+    for t, rj in pairs:
+        for one in rj.get("results", []):
+            for cfg, x in one["runs"].items():
+                if x["kind"] != "ok" or "events" not in x:
+                    continue
+                mks = []
+                _collect_mk(x.get("value"), mks)
+                if not mks:
+                    continue
+                toks = one["tokens"]
+                spans = []
+                for (_n, b, ok, a, la) in x["events"]:
+                    if not ok or b >= len(toks):
+                        continue
+                    sp = expected_span(toks, b, a) if a > b else None
+                    if sp is not None:
+                        spans.append(sp)
+                        continue
+                    # an alternative that matched NO token, or layout tokens only (both outside the property's quantifier),
+                    # receives the start of the token at its entry and the end of the last real token before its end:
+                    # not judged, but recognised
+                    real = [tk for tk in toks[:a] if tk[0] not in LAYOUT]
+                    if real:
+                        spans.append([toks[b][2], toks[b][3], real[-1][4], real[-1][5]])
+                chk.note_case((t, json.dumps(one["tokens"]), cfg, "nested"))
+                for got in mks:
+                    if got not in spans:
+                        chk.violation(f"a location received by an action is {got}, which is not the span of the tokens matched by "
+                                      "any invocation of this parse", {"grammar": t, "tokens": one["tokens"], "configuration": cfg,
+                                      "received": got, "spans of the successful invocations": spans[:40]}, True)
+                        break
     for t, rj in pairs:
         if not t.startswith("start:") or "mk(LOCATIONS)" not in t.split("\n")[0]:
             continue
